@@ -124,6 +124,19 @@ func init() {
 		}
 		return nil
 	}
+	in[rtPrefix+"Guard"] = func(fr *frame, args []value) value {
+		x := fr.i.x
+		msg, _ := argStr(args[1])
+		switch b := args[0].(type) {
+		case bool:
+			if !b {
+				x.Incon = append(x.Incon, "harness guard failed: "+msg+"; inputs "+ModelString(x.modelQuiet()))
+			}
+		default:
+			panic(unsupported("rt.Guard on a symbolic condition"))
+		}
+		return nil
+	}
 	boolE := func(x *Exec, v value) *smt.Expr { return x.lift(v).E }
 	in[rtPrefix+"And"] = func(fr *frame, a []value) value {
 		x := fr.i.x
